@@ -732,10 +732,11 @@ class SMTP(basic.LineOnlyReceiver, policies.TimeoutMixin):
                 if not self.__messages:
                     self._messageHandled("thrown away")
                     return
-                defer.DeferredList(
-                    [m.eomReceived() for m in self.__messages], consumeErrors=True
-                ).addCallback(self._messageHandled)
+                messages = self.__messages
                 del self.__messages
+                defer.DeferredList(
+                    [m.eomReceived() for m in messages], consumeErrors=True
+                ).addCallback(self._messageHandled)
                 return
             line = line[1:]
 
